@@ -84,6 +84,12 @@ def candidates(prog, rng):
         q = [n, args]
         if q not in Q:
             Q.append(q)
+    # list-collecting helpers (all/3, findall/3 ground their goal through uncached helper predicates of the engine)
+    unary = [n for n in names if preds[n] == 1 and n.startswith("f")]  # base predicates only: no recursion below the collector
+    for j, n in enumerate(unary[:2]):
+        Q.append(["zzall_%s" % n, ["L"]])
+        if rng.random() < 0.5:
+            Q.append(["zzfa_%s" % n, ["L"]])
     E = []
     for _ in range(3):
         n = rng.choice(names)
@@ -91,6 +97,16 @@ def candidates(prog, rng):
         if not any(e[0] == a for e in E):
             E.append([a, rng.random() < 0.6])
     return Q, E
+
+
+def helper_clauses(Q):
+    out = []
+    for q in Q:
+        if q[0].startswith("zzall_"):
+            out.append("%s(L) :- all(X, %s(X), L)." % (q[0], q[0][len("zzall_"):]))
+        elif q[0].startswith("zzfa_"):
+            out.append("%s(L) :- findall(X, %s(X), L)." % (q[0], q[0][len("zzfa_"):]))
+    return "\n".join(out) + ("\n" if out else "")
 
 
 def gen_history(rng, nq, ne, faults):
@@ -458,6 +474,8 @@ def zero_prob_only(a, b):
 
 def base_text_of(prog, Q, faults):
     text = gen.program_text(prog, with_queries=False, with_evidence=False)
+    defined = set(h[1][0] for cl in prog["clauses"] for h in cl["heads"])
+    text += helper_clauses([q for q in Q if q[0].split("_", 1)[-1] in defined])
     if faults:
         text += POISON
         for qi, q in enumerate(Q):
